@@ -172,6 +172,41 @@ def run_relu_case(ctx, d):
             ctx.check_corr("deconvnet_impl_model", out.reshape(n, -1), lm["impl"], dd)
             ctx.check_pred("published-rule", out.reshape(n, -1), lm["spec"], dd)
         ctx.count("relu_units", min(int(lm["nrelu"]), 4))
+    # ---- output_layer given (added after seeded changes were missed): the explainer works on the model truncated
+    #      at that layer, and the USER'S model (whose layers the truncated model shares) must stay untouched
+    if d.get("output_layer") and ok_all:
+        cand = [i for i, l in enumerate(model.layers) if i > 0 and l.output is not model.output
+                and len(l.output.shape) == 2]
+        if cand:
+            k = cand[-1]
+            ref = [k, k - len(model.layers), model.layers[k].name][d["case_seed"] % 3]
+            trunc = tf.keras.Model(model.input, model.layers[k].output)
+            yk = (rng.integers(-8, 9, size=(n, int(model.layers[k].output.shape[-1]))) / 4).astype("float32")
+            for rule, cls in (("deconv", DeconvNet), ("guided", GuidedBackprop)):
+                dd = dict(d, rule=rule, output_layer_ref=ref)
+                ok, e1 = ctx.impl_call(dd, lambda: cls(model, output_layer=ref, batch_size=bs, reducer=None)(x, yk).numpy(),
+                                       signature="output_layer")
+                if not ok:
+                    continue
+                ok2, e2 = ctx.impl_call(dd, lambda: cls(trunc, batch_size=bs, reducer=None)(x, yk).numpy(), signature="on-truncated-model")
+                if not ok2:
+                    continue
+                ctx.count("relu_output_layer_cases")
+                ctx.check_prop("output-layer-truncates", e1.shape == e2.shape and bool(np.allclose(e1, e2, rtol=1e-5, atol=1e-6)),
+                               dd, {"with_output_layer": e1.reshape(-1)[:6].tolist(), "truncated_model": e2.reshape(-1)[:6].tolist()})
+                ctx.check_prop("user-model-untouched", _snapshot(model, x) == snap0, dd,
+                               {"what": "after an explainer built with output_layer: model(x) / weights / activation ids / call attributes changed"})
+                with tf.GradientTape() as tape2:
+                    tape2.watch(xt)
+                    s2 = tf.reduce_sum(model(xt) * y, axis=-1)
+                g2 = tape2.gradient(s2, xt).numpy()
+                ctx.check_prop("user-model-untouched", bool(np.array_equal(g2, gtrue)), dd,
+                               {"what": "true gradient of the user's model changed after building an explainer with output_layer"})
+                # a plain explainer built afterwards still gives the earlier result
+                ok, e3 = ctx.impl_call(dd, lambda: cls(model, batch_size=bs, reducer=None)(x, y).numpy(), signature="after-output_layer")
+                if ok and rule in res:
+                    ctx.check_prop("published-rule", bool(np.allclose(e3, res[rule], rtol=1e-5, atol=1e-6)), dd,
+                                   {"what": "explainer built after one with output_layer differs from the one built before"})
     kinds = sorted({s[0] + (":" + str(s[2]) if s[0] == "dense" else "") +
                     (":variant" if s[0] == "relu" and (s[1] is not None or s[2] != 0) else "") for s in d["arch"]})
     for k in kinds:
@@ -251,6 +286,7 @@ def gen_relu_cases(ctx):
             if pos == len(arch) - 1:
                 arch.append(["dense", int(rng.integers(1, 4)), "linear"])
         cases.append({"part": "relu", "arch": arch, "in_shape": in_shape, "N": int(rng.integers(1, 6)),
+                      "output_layer": bool(rng.random() < 0.35),
                       "bs": [None, 1, 2, 3, 32][int(rng.integers(5))], "case_seed": int(rng.integers(1 << 31))})
     return cases
 
@@ -275,6 +311,8 @@ def build_cam_model(tf, d, rng):
     if d.get("hidden"):
         h = L.Dense(d["hidden"], activation="relu", name="hid")(h)
     out = L.Dense(d["nc"], name="out")(h)
+    if d.get("output_layer") is not None:
+        out = L.Softmax(name="sm")(out)
     model = tf.keras.Model(inp, out)
     model.set_weights([rng.integers(-2, 3, size=w.shape).astype("float32") for w in model.get_weights()])
     return model
@@ -321,7 +359,9 @@ def run_cam_case(ctx, d):
         raise RuntimeError("generator produced an invalid layer reference")
     layer = model.layers[int(idx)]
     snap0 = _snapshot(model, x)
-    two = tf.keras.Model(model.input, [layer.output, model.output])
+    ol = d.get("output_layer")                       # None, -2 or "out": explain the logits before the softmax
+    head = model.get_layer("out").output if ol is not None else model.output
+    two = tf.keras.Model(model.input, [layer.output, head])
     xt = tf.constant(x)
     with tf.GradientTape() as tape:
         A_t, P = two(xt)
@@ -338,12 +378,14 @@ def run_cam_case(ctx, d):
     ctx.count("cam_fmap", f"{hp}x{wp}" if hp * wp <= 6 else "larger")
     ctx.count("cam_bs", "none" if bs is None else ("lt" if bs < n else "ge"))
     ctx.count("cam_resize", "identity" if (hp, wp) == (H, W) else "upsample")
+    ctx.count("cam_output_layer", "none" if ol is None else str(ol))
     nontrivial = False
     for mname, cls in (("gradcam", GradCAM), ("gradcampp", GradCAMPP)):
         dd = dict(d, method=mname)
 
         def impl():
-            expl = cls(model, batch_size=bs, conv_layer=ref)
+            kw = {} if ol is None else {"output_layer": ol}
+            expl = cls(model, batch_size=bs, conv_layer=ref, **kw)
             return expl, expl(x, y).numpy()
         ok, r = ctx.impl_call(dd, impl)
         if not ok:
@@ -422,9 +464,13 @@ def gen_cam_cases(ctx):
             names.append(f"c{i}")
             if s[7] == "relu":
                 names.append(f"r{i}")
-        nlayers = len(names) + 2 + (1 if d["hidden"] else 0)
+        if rng.random() < 0.4:
+            d["output_layer"] = [-2, "out"][int(rng.integers(2))]     # explain the logits before a softmax layer
+        nlayers = len(names) + 2 + (1 if d["hidden"] else 0) + (1 if d.get("output_layer") is not None else 0)
         cands = [i for i, nm in enumerate(names) if nm != "inp"]
         r = rng.random()
+        if d.get("output_layer") is not None and rng.random() < 0.5:
+            r = 0.9                                                    # negative index: resolved on the FULL model
         if r < 0.3:
             d["layer_ref"] = None
         else:
